@@ -83,12 +83,10 @@ func (c Compressor) Decompress(source io.Reader, dest io.Writer) error {
 }
 
 func (c Compressor) DecompressWithLength(source io.Reader, dest io.Writer) error {
-	// read the decompressed length first
 	var decompressedLength uint32
 	if err := binary.Read(source, binary.BigEndian, &decompressedLength); err != nil {
 		return fmt.Errorf("cannot read compressed length: %w", err)
 	} else if decompressedLength == 0 {
-		// if decompressed length is zero, the remaining buffer will contain a single byte that should be discarded
 		if _, err = io.CopyN(ioutil.Discard, source, 1); err != nil {
 			return fmt.Errorf("cannot read empty message: %w", err)
 		}
@@ -97,14 +95,23 @@ func (c Compressor) DecompressWithLength(source io.Reader, dest io.Writer) error
 	return c.Decompress(source, dest)
 }
 
+// maxCompressionRatio is an upper bound of the LZ4 block format's compression ratio: one sequence encodes at most 255
+// more bytes of match length for each additional byte it occupies.
+const maxCompressionRatio = 255
+
 func decompress(source []byte) (dest []byte, err error) {
-	// try destination buffers of increased length to avoid allocating too much space, starting with twice the
-	// compressed length and up to eight times the compressed length
 	compressedLength := len(source)
+	if compressedLength == 0 || (compressedLength == 1 && source[0] == 0) {
+		// nothing to decompress: no block at all, or the block of an empty message (a single token announcing no
+		// literals and no match), which lz4.UncompressBlock rejects
+		return []byte{}, nil
+	}
 	var written int
-	for i := compressedLength * 2; i <= compressedLength*8; i *= 2 {
+	// The decompressed size is not known in advance: start with a small multiple of the compressed size and grow the
+	// destination buffer until the block fits, up to the highest ratio the LZ4 block format can reach.
+	for i := compressedLength * 2; ; i *= 2 {
 		dest = make([]byte, i)
-		if written, err = lz4.UncompressBlock(source, dest); err == nil {
+		if written, err = lz4.UncompressBlock(source, dest); err == nil || i > compressedLength*maxCompressionRatio {
 			break
 		}
 	}
